@@ -26,6 +26,11 @@ type RecStorage struct {
 	// EffsAtFail is the number of mutating calls recorded when the last injected Retrieve failure
 	// fired (0 = the request had not touched storage yet: the failure hit its lookup phase).
 	EffsAtFail int
+	// HideLargeValues makes the storage answer ABSENT (found=false, err=nil; RetrieveIfLoaded: nil) for every
+	// large-value slab (*atree.StorableSlab) while the container slabs that refer to them stay readable: the
+	// view of a storage from which a referenced slab has disappeared.  Hidden lists the slabs asked for.
+	HideLargeValues bool
+	Hidden          []atree.SlabID
 }
 
 var _ atree.SlabStorage = &RecStorage{}
@@ -57,10 +62,23 @@ func (r *RecStorage) Retrieve(id atree.SlabID) (atree.Slab, bool, error) {
 		r.EffsAtFail = len(r.Effs)
 		return nil, false, ErrInjected
 	}
-	return r.Inner.Retrieve(id)
+	s, ok, err := r.Inner.Retrieve(id)
+	if r.HideLargeValues && ok && err == nil {
+		if _, is := s.(*atree.StorableSlab); is {
+			r.Hidden = append(r.Hidden, id)
+			return nil, false, nil
+		}
+	}
+	return s, ok, err
 }
 func (r *RecStorage) RetrieveIfLoaded(id atree.SlabID) atree.Slab {
-	return r.Inner.RetrieveIfLoaded(id)
+	s := r.Inner.RetrieveIfLoaded(id)
+	if r.HideLargeValues {
+		if _, is := s.(*atree.StorableSlab); is {
+			return nil
+		}
+	}
+	return s
 }
 func (r *RecStorage) Count() int                                { return r.Inner.Count() }
 func (r *RecStorage) SlabIterator() (atree.SlabIterator, error) { return r.Inner.SlabIterator() }
